@@ -34,12 +34,14 @@ L3  == Loc(M1, 7, <<Ln(H, 31, 1), Ln(G, 22, 1), Ln(F, 12, 1)>>, FALSE)
 LU  == Loc(M0, 8, <<>>, FALSE)                                    \* unsymbolised
 F2  == Fn("f", "f", "b.c", 0)                                     \* another function called f, in another file
 LF2 == Loc(M0, 9, <<Ln(F2, 40, 1)>>, FALSE)
+LN  == Loc(NoMap, 10, <<Ln(G, 23, 1)>>, FALSE)                    \* a symbolized location without any mapping (Java profiles, hand-built ones)
 Locs == <<LF, LG, LH, LGF, L3, LU>>
 Universe == {"f", "g", "h", "a.c", "b.c", "bin", "lib"}
 
 Stacks(dummy) == {<<>>} \cup {<<Locs[i]>> : i \in DOMAIN Locs} \cup {<<Locs[i], Locs[j]>> : i, j \in DOMAIN Locs}
           \cup {<<LF, LGF, LH>>, <<L3, LG, L3>>, <<LU, LF, LU>>}
           \cup {<<LF2>>, <<LF, LF2>>, <<LF2, LF>>, <<LF2, LH>>, <<LGF, LF2>>}      \* two functions of one name in different files
+          \cup {<<LN, LF>>, <<LH, LN>>, <<LN, LGF, LN>>}     \* (always next to a mapped location: a profile without ANY mapping gets one made up by the driver)
 Second(dummy) == IF Tier # "thorough" THEN {<<LGF, LH>>, <<>>} ELSE {<<LGF, LH>>, <<>>, <<L3, LF>>}
 Profiles(dummy) == { << Smp(a, <<1, 3>>, <<SLab("k", <<"x">>)>>, <<>>), Smp(b, <<2, -2>>, <<>>, <<>>) >> : a \in Stacks(0), b \in Second(0) }
 
@@ -116,9 +118,10 @@ TagMatchD(s, t) ==
   CASE t.kind = "none"  -> TRUE
     [] t.kind = "all"   -> \A i \in DOMAIN t.exprs : KV(s) \cap t.exprs[i] # {}
     [] t.kind = "key"   -> \E i \in DOMAIN t.exprs : ValuesOf(s, t.key) \cap t.exprs[i] # {}
+    \* (the ranges of the catalogue are given in bytes / kb: a value in a unit of another family - a duration - never matches)
     [] t.kind = "range" -> \E i \in DOMAIN s.num : (t.key = "" \/ s.num[i].k = t.key) /\
                               \E j \in DOMAIN s.num[i].v : LET b == s.num[i].v[j] * (IF s.num[i].u[j] = "kb" THEN 1024 ELSE 1)
-                                                           IN t.lo <= b /\ b <= t.hi
+                                                           IN s.num[i].u[j] \in {"bytes", "kb"} /\ t.lo <= b /\ b <= t.hi
 TagFilterD(samples, tf, ti) ==
   SelectSeq(samples, LAMBDA s : (tf.kind = "none" \/ TagMatchD(s, tf)) /\ ~(ti.kind # "none" /\ TagMatchD(s, ti)))
 \* tagshow / taghide act on label keys
@@ -132,8 +135,9 @@ TagSamples(dummy) ==
   { << Smp(<<LF>>, <<1, 1>>, a, n1), Smp(<<LG>>, <<1, 2>>, b, n2), Smp(<<LH>>, <<1, 4>>, <<>>, <<>>) >> :
       a \in { <<SLab("k", <<"x">>)>>, <<SLab("k", <<"x", "y">>)>>, <<SLab("k", <<"x">>), SLab("j", <<"z">>)>>, <<SLab("k", <<"a=b">>)>> },
       b \in { <<>>, <<SLab("k", <<"y">>)>>, <<SLab("j", <<"x">>)>> },
-      n1 \in { <<>>, <<NLab("n", <<2048>>, <<"bytes">>)>>, <<NLab("n", <<2500>>, <<"bytes">>)>> },
-      n2 \in { <<>>, <<NLab("n", <<1024, 4096>>, <<"bytes", "bytes">>)>>, <<NLab("m", <<2048>>, <<"bytes">>)>> } }
+      n1 \in { <<>>, <<NLab("n", <<2048>>, <<"bytes">>)>>, <<NLab("n", <<2500>>, <<"bytes">>)>>, <<NLab("t", <<5000>>, <<"nanoseconds">>)>> },
+      n2 \in { <<>>, <<NLab("n", <<1024, 4096>>, <<"bytes", "bytes">>)>>, <<NLab("m", <<2048>>, <<"bytes">>)>>,
+               <<NLab("t", <<90>>, <<"seconds">>), NLab("n", <<7>>, <<"bytes">>)>> } }
 TagExprs == { [kind |-> "all", exprs |-> <<{"k:x"}>>], [kind |-> "all", exprs |-> <<{"k:x"}, {"j:z"}>>],
               [kind |-> "all", exprs |-> <<{"k:x", "k:y"}>>], [kind |-> "all", exprs |-> <<{"j:x", "j:z"}, {"k:y", "k:x"}>>],
               [kind |-> "key", key |-> "k", exprs |-> <<{"x"}>>], [kind |-> "key", key |-> "k", exprs |-> <<{"y"}, {"z"}>>],
